@@ -1,6 +1,6 @@
 // Package c20 holds the property predicates of C20 ("text analysis, chunking and context
 // assembly are total and bounded") as they are evaluated on the output of the REAL code, the
-// signatures of the known findings (mirrors of the operators of spec/Split.tla) and the
+// diagnostic signatures of the two splitter defects repaired in pkg/rag/splitter.go and the
 // panic/timeout guard every call into the code under verification goes through.
 package c20
 
@@ -116,7 +116,8 @@ func LongestChunk(chunks []string) int {
 	return m
 }
 
-// LossOnlyOfSeparators is the signature of KF-C20-1 (spec: LossOnlyOfSeparators): after every
+// LossOnlyOfSeparators is a diagnostic (signature of the repaired "separator dropped" defect, should
+// the old behaviour return; the verdict does not depend on it): after every
 // occurrence of a separator that has non-whitespace characters is replaced by a newline,
 // nothing else is missing from the chunks.
 func LossOnlyOfSeparators(text string, seps []string, chunks []string) bool {
@@ -129,8 +130,9 @@ func LossOnlyOfSeparators(text string, seps []string, chunks []string) bool {
 	return subseqEither(t, chunks)
 }
 
-// Envelope is the signature bound of KF-C20-2 (spec: Envelope): with overlap > 0 a merged piece
-// is (kept tail <= overlap) + separator + next piece, compounding over the separator levels.
+// Envelope is a diagnostic (signature of the repaired "overlap tail not re-checked" defect; the
+// verdict does not depend on it): with overlap > 0 a merged piece was (kept tail <= overlap) +
+// separator + next piece, compounding over the separator levels.
 func Envelope(seps []string, size, ov int) int {
 	d := 0
 	for k := len(seps) - 1; k >= 0; k-- {
